@@ -1,5 +1,6 @@
 import CsVerif.Model.C11
 import CsVerif.Lemmas.C10
+import CsVerif.Props.C12
 /-! Helper lemmas for C11 (core tactics only, no Mathlib).
 
 Part 1: the token walk on abstract statement lists (`Stms`) — the invariant "stack = path of the enclosing blocks"
@@ -909,5 +910,198 @@ theorem deriv_link (hS : ShapesOK G = true) (hL : LookupWF G = true) (hP : C10.P
   · simpa [stmsOfTree, C10.toTree, Parts.kids] using h1
   · simpa [Parts.yield, C10.kwSeq, Deriv.yield] using h2
   · intro h; apply h3; simpa [Parts.yield, Deriv.yield] using h
+
+/-! ## Part 3: the tree → derivation checker -/
+
+def DnSound (dn : Nat → Nat → Forest → Option (Form × Parts)) : Prop :=
+  ∀ n l ks f b, dn n l ks = some (f, b) →
+    G.has f = true ∧ f.origin = n ∧ C10.label f = l ∧ wfParts G f.items b = true ∧ b.kids = ks
+
+theorem deriveItems_sound {dn} (hdn : DnSound G dn) (is : List Item) (ks : Forest) :
+    ∀ p, deriveItems G dn is ks = some p → wfParts G is p = true ∧ p.kids = ks := by
+  fun_induction deriveItems G dn is ks with
+  | case1 => intro p h; simp at h; subst h; simp [wfParts, Parts.kids]
+  | case2 => intro p h; simp at h
+  | case3 k is ks ih =>
+    intro p h
+    simp only [Option.map_eq_some_iff] at h
+    obtain ⟨q, hq, rfl⟩ := h
+    obtain ⟨h1, h2⟩ := ih q hq
+    simp [wfParts, Parts.kids, h1, h2]
+  | case4 t is t' s r heq ih =>
+    intro p h
+    simp only [Option.map_eq_some_iff] at h
+    obtain ⟨q, hq, rfl⟩ := h
+    obtain ⟨h1, h2⟩ := ih q hq
+    have : t = t' := by simpa using heq
+    simp [wfParts, Parts.kids, h1, h2, this]
+  | case5 => intro p h; simp at h
+  | case6 => intro p h; simp at h
+  | case7 n is l ks r f b hd ih =>
+    intro p h
+    simp only [Option.map_eq_some_iff] at h
+    obtain ⟨q, hq, rfl⟩ := h
+    obtain ⟨h1, h2⟩ := ih q hq
+    obtain ⟨a1, a2, a3, a4, a5⟩ := hdn _ _ _ _ _ hd
+    simp [wfParts, Parts.kids, h1, h2, a1, a2, a3, a4, a5]
+  | case8 => intro p h; simp at h
+  | case9 => intro p h; simp at h
+  | case10 n is l ks r f b hd ih =>
+    intro p h
+    simp only [Option.map_eq_some_iff] at h
+    obtain ⟨q, hq, rfl⟩ := h
+    obtain ⟨h1, h2⟩ := ih q hq
+    obtain ⟨a1, a2, a3, a4, a5⟩ := hdn _ _ _ _ _ hd
+    simp [wfParts, Parts.kids, h1, h2, a1, a2, a3, a4, a5]
+  | case11 n is l ks r hd ih =>
+    intro p h
+    simp only [Option.map_eq_some_iff] at h
+    obtain ⟨q, hq, rfl⟩ := h
+    obtain ⟨h1, h2⟩ := ih q hq
+    simp [wfParts, Parts.kids, h1, h2]
+  | case12 n is ks hne ih =>
+    intro p h
+    simp only [Option.map_eq_some_iff] at h
+    obtain ⟨q, hq, rfl⟩ := h
+    obtain ⟨h1, h2⟩ := ih q hq
+    simp [wfParts, Parts.kids, h1, h2]
+  | case13 n is l ks r f b hd ih =>
+    intro p h
+    simp only [Option.map_eq_some_iff] at h
+    obtain ⟨q, hq, rfl⟩ := h
+    obtain ⟨h1, h2⟩ := ih q hq
+    obtain ⟨a1, a2, a3, a4, a5⟩ := hdn _ _ _ _ _ hd
+    simp [wfParts, Parts.kids, h1, h2, a1, a2, a3, a4, a5]
+  | case14 n is l ks r hd ih =>
+    intro p h
+    simp only [Option.map_eq_some_iff] at h
+    obtain ⟨q, hq, rfl⟩ := h
+    obtain ⟨h1, h2⟩ := ih q hq
+    simp [wfParts, Parts.kids, h1, h2]
+  | case15 n is ks hne ih =>
+    intro p h
+    simp only [Option.map_eq_some_iff] at h
+    obtain ⟨q, hq, rfl⟩ := h
+    obtain ⟨h1, h2⟩ := ih q hq
+    simp [wfParts, Parts.kids, h1, h2]
+
+theorem deriveNode_sound : ∀ fuel, DnSound G (deriveNode G fuel) := by
+  intro fuel
+  induction fuel with
+  | zero => intro n l ks f b h; simp [deriveNode] at h
+  | succ fuel ih =>
+    intro n l ks f b h
+    simp only [deriveNode] at h
+    obtain ⟨g, _, hg⟩ := List.exists_of_findSome?_eq_some h
+    split at hg
+    · rename_i hc
+      simp only [Bool.and_eq_true, beq_iff_eq] at hc
+      simp only [Option.map_eq_some_iff, Prod.mk.injEq] at hg
+      obtain ⟨q, hq, rfl, rfl⟩ := hg
+      obtain ⟨h1, h2⟩ := deriveItems_sound G ih _ _ _ hq
+      exact ⟨hc.2, hc.1.1, hc.1.2, h1, h2⟩
+    · cases hg
+
+/-- the checker is sound: what it returns is a well-formed derivation from the start symbol with that very tree -/
+theorem derive_sound {t : Tree} {d : Deriv} (h : derive G t = some d) :
+    d.WF G = true ∧ d.form.origin = G.start ∧ C10.toTree d = t := by
+  unfold derive at h
+  simp only [Option.map_eq_some_iff] at h
+  obtain ⟨⟨f, b⟩, hfb, rfl⟩ := h
+  obtain ⟨h1, h2, h3, h4, h5⟩ := deriveNode_sound G _ _ _ _ _ _ hfb
+  refine ⟨by simp [Deriv.WF, h1, h4], h2, ?_⟩
+  simp [C10.toTree, h3, h5]
+
+/-! ### the cache -/
+
+/-- what the accesses of a history should return: the dictionary of the CURRENT tree -/
+def expected (compute : Tree → Option (Py Dict)) : Tree → List Op → List (Option (Py Dict))
+  | _, [] => []
+  | t, .modify f :: ops => expected compute (f t) ops
+  | t, .access :: ops => compute t :: expected compute t ops
+
+/-- the cache, when filled, holds the dictionary of a tree of the history with that hash -/
+def CacheInv {H : Type} (hash : Tree → H) (compute : Tree → Option (Py Dict)) (L : List Tree) (s : PState H) : Prop :=
+  ∀ h, s.dictHash = some h → ∃ t', t' ∈ L ∧ h = hash t' ∧ compute t' = some (.ok s.dictCache)
+
+theorem mem_treesOf_self (t : Tree) (ops : List Op) : t ∈ treesOf t ops := by
+  induction ops generalizing t with
+  | nil => simp [treesOf]
+  | cons o ops ih =>
+    cases o with
+    | modify f => simp [treesOf]
+    | access => simpa [treesOf] using ih t
+
+theorem runHist_correct {H : Type} [DecidableEq H] (hash : Tree → H) (compute : Tree → Option (Py Dict))
+    (L : List Tree) (hinj : ∀ a ∈ L, ∀ b ∈ L, hash a = hash b → a = b) :
+    ∀ (ops : List Op) (s : PState H), (∀ t ∈ treesOf s.tree ops, t ∈ L) → CacheInv hash compute L s →
+      runHist hash compute s ops = expected compute s.tree ops := by
+  intro ops
+  induction ops with
+  | nil => intro s _ _; simp [runHist, expected]
+  | cons o ops ih =>
+    intro s hsub hinv
+    cases o with
+    | modify f =>
+      simp only [runHist, expected]
+      apply ih ⟨f s.tree, s.dictHash, s.dictCache⟩
+      · intro t ht; apply hsub; simp [treesOf, ht]
+      · exact hinv
+    | access =>
+      have hself : s.tree ∈ L := hsub _ (mem_treesOf_self _ _)
+      have hsub' : ∀ t ∈ treesOf s.tree ops, t ∈ L := by
+        intro t ht; apply hsub; simpa [treesOf] using ht
+      simp only [runHist, expected]
+      unfold asDictCached
+      by_cases hc : s.dictHash = some (hash s.tree)
+      · simp only [hc, if_true]
+        obtain ⟨t', ht', hh, hcomp⟩ := hinv _ hc
+        have : s.tree = t' := hinj _ hself _ ht' hh
+        subst this
+        rw [ih s hsub' hinv, hcomp]
+      · simp only [hc, if_false]
+        cases hcomp : compute s.tree with
+        | none => simp only; rw [ih s hsub' hinv]
+        | some r =>
+          cases r with
+          | error e => simp only; rw [ih s hsub' hinv]
+          | ok d =>
+            simp only
+            rw [ih ⟨s.tree, some (hash s.tree), d⟩ hsub']
+            intro h hh
+            simp only [Option.some.injEq] at hh
+            exact ⟨s.tree, hself, hh.symm, hcomp⟩
+
+/-! ### tokens made by the builder -/
+
+theorem isSubstr_head {c : Nat} {s t : Text} (h : c ∉ t) : C10.isSubstr (c :: s) t = false := by
+  induction t with
+  | nil => simp [C10.isSubstr]
+  | cons x t ih =>
+    simp only [List.mem_cons, not_or] at h
+    simp only [C10.isSubstr, Bool.or_eq_false_iff]
+    refine ⟨?_, ih h.2⟩
+    simp [List.isPrefixOf, h.1]
+
+theorem valueToString_head (v : PyVal) : ∃ r, valueToString v = 34 :: r := by
+  cases v with
+  | str s => exact ⟨_, rfl⟩
+  | bytes b =>
+    refine ⟨(C12.strReplace [C12.bsl, C12.sq] [C12.sq] (C12.strReplace [C12.dq] [C12.bsl, C12.dq]
+      (pySliceFrom (pySliceTo (C12.reprBytes ([C12.dq] ++ b)) (some (-1))) 3)) ++ [C12.dq]).map (·.toNat), ?_⟩
+    simp [valueToString, C12.valueToString, C12.valueToStringStr]
+    rfl
+
+/-- a STRING token made by `value_to_string` can never be mistaken for punctuation or for `set` -/
+theorem valueToString_tokOK (v : PyVal) :
+    C10.isFlush (valueToString v) = false ∧ valueToString v ≠ setKw := by
+  obtain ⟨r, hr⟩ := valueToString_head v
+  rw [hr]
+  exact ⟨isSubstr_head (by decide), by simp [setKw]⟩
+
+/-- bytes handed to the builder come back from a list property as the same bytes -/
+theorem listAtom_bytes (b : Bytes) : listAtom (.token true (valueToString (.bytes b))) = .ok (.bytes b) := by
+  simp only [listAtom, valueToString]
+  rw [C12.decode_latin1_codepoints, C12.literal_roundtrip]
 
 end C11
